@@ -99,6 +99,19 @@ Theorem C10_uniq_filters_render_time :
 Proof. exact uniq_filters_lemma. Qed.
 Print Assumptions C10_uniq_filters_render_time.
 
+(* every object bound at module or class scope of src/nunavut (literal containers AND results of calls, i.e. instances of any
+   class) is never written and never handed to code that could keep or fill it -- or has been reviewed; this is what a process-wide
+   cache object passed to the bundled jinja2 fails *)
+Theorem C10_module_objects_constant : forallb modobj_ok g_modobjs = true.
+Proof. exact modobjs_ok_lemma. Qed.
+Print Assumptions C10_module_objects_constant.
+
+(* every keyword argument handed to the bundled jinja2 Environment constructor is on the allow-list of per-environment settings
+   (no bytecode_cache) and its value is a constructor parameter, a literal, an imported class or a fresh object *)
+Theorem C10_engine_constructed_per_environment : forallb envkw_ok g_env_kwargs = true /\ (0 < length g_env_kwargs)%nat.
+Proof. exact env_kwargs_ok_lemma. Qed.
+Print Assumptions C10_engine_constructed_per_environment.
+
 (* ---------------------------------------------------------------------------------------------------------------------- *)
 (* (4) closure and template selection                                                                                     *)
 (* (3) the object a generator builds for type k is the same for every input set that contains k's dependency closure *)
